@@ -171,3 +171,12 @@ CHECKS["C16"]["note"] += " History family: two values (equal but differently typ
 CHECKS["C17"]["note"] += " Uncopyable values are also judged in sequences (a well-behaved value of the same outer type first; two odd values; bare/list/dict/tuple; ==, in, [])."
 CHECKS["C18"]["note"] += " Templates include replaced / neighbouring multi-line literals with non-ASCII characters and parenthesized elements."
 CHECKS["C20"]["note"] += " One path rewritten twice in one interpreter with different contents (symbolic); because CrossHair bypasses functools.lru_cache, the same case is also run concretely on all idempotent formatters of a 3-text domain (contract-validation item, no solver)."
+# fifth batch (fourth seed round and its side observations)
+CHECKS["C02"]["note"] += " Also: hand-written dict displays with two equal keys."
+CHECKS["C05"]["note"] += " One open known finding (known_findings.json: C05-positional-dataclass-arguments - a dataclass snapshot written with positional arguments reports a fix although the comparison holds): its witness is replayed on every run, the line KNOWN-FINDING is printed and exactly that template is left out of the search."
+CHECKS["C06"]["note"] += " Also: comparisons made at import time, outside any test item, are not charged to a test."
+CHECKS["C07"]["note"] += " Also: import-time comparisons with every flag subset; a comparison that raises while a list is aligned (defect repaired in 47970c8)."
+CHECKS["C13"]["note"] += " Also: one inductive step for sessions in which inline-snapshot is disabled (flag / CI / xdist): -new leftovers are pruned, nothing else changes."
+CHECKS["C14"]["note"] += " Also: one growing list recorded several times at an in site (optionally compared at a second site)."
+CHECKS["C18"]["note"] += " Also: short-report sessions; comparisons that raise inside an in-snapshot, a never-compared snapshot(variable) of a dataclass, pytest started from another directory (defects repaired in bca6177, fe3a84c, a05aa4e)."
+CHECKS["C01"]["note"] += " Dataclass fields with init=False (defect repaired in ada6d73)."
